@@ -11,7 +11,7 @@
    display exactly [show S] for the surface S drawn for that frame, and no
    command may be a protocol error. *)
 From Coq Require Import List NArith Bool Arith.
-From SNT Require Export Base.Report Render.Cell Render.Screen Render.Frame Render.Domain.
+From SNT Require Export Base.Report Render.Cell Render.Screen Render.Frame Render.Domain Render.Spec.
 Import ListNotations.
 
 Definition c (f ch : N) : cell := mkcell f (KChar ch).
@@ -53,23 +53,6 @@ Definition cmd_eqb (a b : cmd) : bool :=
   | CImageErase i None, CImageErase j None => N.eqb i j
   | CImageErase i (Some (r, c)), CImageErase j (Some (r', c')) => N.eqb i j && Nat.eqb r r' && Nat.eqb c c'
   | COther, COther => true
-  | _, _ => false
-  end.
-
-(* specification side: what must be on the screen after each operation *)
-Fixpoint spec_run (o : oracle) (h w : nat) (scr : screen) (drawn : grid cell)
-         (ops : list op) (impl : list (list cmd)) : bool :=
-  match ops, impl with
-  | [], [] => true
-  | x :: ops', cs :: impl' =>
-      let scr' := exec_list o scr cs in
-      negb (err scr')
-      && match x with
-         | Draw g => spec_run o h w scr' g ops' impl'
-         | Frame => same_display scr' (show o h w drawn)
-                    && spec_run o h w scr' (gmake h w cell_default) ops' impl'
-         | _ => spec_run o h w scr' (gmake h w cell_default) ops' impl'
-         end
   | _, _ => false
   end.
 
